@@ -32,8 +32,13 @@ def gen_case(rnd):
     names = rnd.sample(['a', 'b', 'c', 'web', 'db'], n)
     big = {nm: rnd.random() < 0.3 for nm in names}
     i = rnd.randrange(n)
-    fault = rnd.choice(['devfull', 'dir', 'none', 'outdir'])
-    return dict(names=names, big=big, idx=i, fault=fault)
+    fault = rnd.choice(['devfull', 'dir', 'none', 'outdir', 'fsize', 'fsize'])
+    c = dict(names=names, big=big, idx=i, fault=fault)
+    if fault == 'fsize':
+        # a byte budget per file: the victim is the only large unit, the budget lies between the small services and the victim
+        c['big'] = {nm: nm == names[i] for nm in names}
+        c['limit'] = rnd.choice([1024, 1500, 4096, 8192, 8193, 10000])
+    return c
 
 
 def run(case_rnd):
@@ -57,7 +62,7 @@ def run(case_rnd):
             os.symlink('/dev/full', os.path.join(out, victim + '.service'))
         elif case['fault'] == 'dir':
             os.makedirs(os.path.join(out, victim + '.service'))
-    rc, so, se = e2e.run_binary(['--no-kmsg-log', out], os.path.join(base, 'src'))
+    rc, so, se = e2e.run_binary(['--no-kmsg-log', out], os.path.join(base, 'src'), fsize_limit=case.get('limit'))
     snap = e2e.snapshot(out) if os.path.isdir(out) else {}
     # what would have been written (piece sizes) from a dry run
     rc2, so2, se2 = e2e.run_binary(['--dry-run', '--no-kmsg-log', out], os.path.join(base, 'src'))
@@ -76,7 +81,7 @@ def correspond(ctx):
     # the writer model on the same piece sizes: would generate_service_file report an error?
     lines, metas = [], []
     for c, o in ctx._c18:
-        if c['fault'] not in ('devfull', 'none'):
+        if c['fault'] not in ('devfull', 'none', 'fsize'):
             continue
         victim = c['names'][c['idx']] + '.service'
         text = o['printed'].get(victim)
@@ -84,7 +89,7 @@ def correspond(ctx):
             continue
         header = len('# Automatically generated by ' + core.BIN + '\n')
         sizes = [header] + [len((l + '\n').encode()) for l in text.split('\n')[:-1]]
-        lines.append('gen_write\t' + ('0' if c['fault'] == 'devfull' else 'none') + '\t8192\t' + ','.join(map(str, sizes)))
+        lines.append('gen_write\t' + ('0' if c['fault'] == 'devfull' else (str(c['limit']) if c['fault'] == 'fsize' else 'none')) + '\t8192\t' + ','.join(map(str, sizes)))
         metas.append((c, o, victim))
     mo = ctx.model(lines)
     for (c, o, victim), line, b in zip(metas, lines, mo):
@@ -121,7 +126,7 @@ def oracle(ctx):
                 fails.append(f'the output directory that cannot be created is not named in an error: {e2e.error_lines(o["stderr"])}')
             if o['snap']:
                 fails.append('something was written although the output directory could not be created')
-        elif c['fault'] in ('devfull', 'dir'):
+        elif c['fault'] in ('devfull', 'dir', 'fsize'):
             if not any('ERROR' in l and victim in l for l in o['stderr'].split('\n')):
                 fails.append(f'the failed write of {victim} is not logged with its path: {e2e.error_lines(o["stderr"])}')
             if f'default.target.wants/{victim}' in o['snap']:
